@@ -55,9 +55,8 @@ THEOREMS = [
 LEAN_MODULES = ["PorepyVerif.C18.Props"]
 AUDIT = "PorepyVerif/C18/Audit.lean"
 DRIVER = "PorepyVerif/C18/Driver.lean"
-N = {"quick": 80, "thorough": 2500}
-DISABLED = True
-RULE = ("60% 'grid' cases: simplex grid of dim 1/2/3 (TensorGrid, StructuredTriangleGrid, StructuredTetrahedralGrid; 1-12 cells quick), "
+N = {"quick": 60, "thorough": 3000}
+RULE = ("60% 'grid' cases: simplex grid of dim 1/2/3 (TensorGrid, StructuredTriangleGrid, StructuredTetrahedralGrid; 1-12 cells in the quick tier, up to 48 in the thorough tier), "
         "nodes perturbed by dyadic offsets and sheared by a dyadic unimodular-ish map, dim<3 grids embedded in 3-D by a rational (quaternion) "
         "rotation + dyadic translation in 2 of 3 cases; constant SPD 3x3 tensor K = L L^T with dyadic L; linear pressure with dyadic gradient; "
         "all boundary faces Dirichlet. 40% 'local' cases: one random rational simplex of either orientation, random face signs, SPD dxd tensor. "
